@@ -360,3 +360,16 @@ func clearObstacles(paths []string) {
 		}
 	}
 }
+
+// spellDir returns dir in one of several equivalent spellings (trailing slash, "/.", a "./" in the middle).
+func spellDir(rng *rand.Rand, dir string) string {
+	switch rng.IntN(4) {
+	case 0:
+		return dir + "/"
+	case 1:
+		return dir + "/."
+	case 2:
+		return filepath.Dir(dir) + "/./" + filepath.Base(dir)
+	}
+	return dir
+}
